@@ -2,7 +2,7 @@
    behaviour of joserfc (correspondence check).  hashlib is instantiated by
    the table of (name, data) -> digest calls the implementation really made
    while producing the recorded result. *)
-From Model Require Import Base PyVal B64 IntCodec TableTypes C13Json C13Thumb.
+From Model Require Import Base PyVal B64 IntCodec TableTypes C13Json C13Thumb C13Sha256.
 Open Scope N_scope.
 
 Definition oracle := list (str * bytes * res bytes).
@@ -63,7 +63,8 @@ Inductive c13case :=
 | CExport (nk : native) (expect : res dict)
 | CKeySet (o : oracle) (ks : list (N * bool * dict)) (private : option bool) (params : dict)
           (expect : res (list dict * list dict))
-| CSpec (kty : string) (K : dict) (canon : list N).
+| CSpec (kty : string) (K : dict) (canon : list N)
+| CSha (x : bytes) (expect : bytes).        (* the SHA-256 used in the Examples of props/C13.v *)
 
 Definition keyset_run (o : oracle) (ks : list (N * bool * dict)) (private : option bool) (params : dict)
   : res (list dict * list dict) :=
@@ -98,6 +99,7 @@ Definition c13_check (c : c13case) : bool :=
               (keyset_run o ks private params) e
   | CSpec kty K canon =>
       match spec_run kty K with Some s => beqb s canon | None => false end
+  | CSha x e => beqb (sha256 x) e
   end.
 
 Inductive c13out :=
@@ -118,4 +120,5 @@ Definition c13_show (c : c13case) : c13out :=
   | CExport nk _ => OD (export_native nk)
   | CKeySet o ks private params _ => ODs (keyset_run o ks private params)
   | CSpec kty K _ => OSpec (spec_run kty K)
+  | CSha x _ => OS (Ok (sha256 x))
   end.
